@@ -127,9 +127,11 @@ def collect(p, timeout=1500):
 
 def _val(v, depth=3):
     """by-value picture of a container (arrays by bytes, objects by type name)"""
-    if v is None or isinstance(v, (bool, int, float, complex, str, bytes)):
+    if isinstance(v, (float, complex)) and not isinstance(v, bool):
+        return ("num", repr(v))  # NaN does not compare equal to itself
+    if v is None or isinstance(v, (bool, int, str, bytes)):
         return v
-    if isinstance(v, np.ndarray) or type(v).__module__.startswith(("jax", "jaxlib")) and hasattr(v, "shape") and hasattr(v, "dtype"):
+    if isinstance(v, np.ndarray) or str(getattr(type(v), "__module__", "")).startswith(("jax", "jaxlib")) and hasattr(v, "shape") and hasattr(v, "dtype"):
         try:
             a = np.asarray(v)
             return ("array", str(a.dtype), a.shape, a.tobytes())
@@ -145,6 +147,16 @@ def _val(v, depth=3):
             items = sorted(items, key=repr)
         return (type(v).__name__, tuple(items))
     return ("obj", type(v).__name__)
+
+
+def _is_data(v):
+    """plain data a module / class can hold as state: containers, scalars, None, arrays"""
+    if v is None or isinstance(v, (bool, int, float, complex, str, bytes, dict, list, set, bytearray, tuple, np.ndarray)):
+        return True
+    try:
+        return str(getattr(type(v), "__module__", "")).startswith(("jax", "jaxlib")) and hasattr(v, "shape") and hasattr(v, "dtype") and not callable(v)
+    except Exception:  # noqa: BLE001  (lazy module proxies)
+        return False
 
 
 def _containers_of_function(f, out, where):
@@ -193,7 +205,7 @@ def module_state(prefix="scico"):
             if k.startswith("__"):
                 continue
             where = f"{mname}.{k}"
-            if isinstance(v, (dict, list, set, bytearray)):
+            if _is_data(v):
                 out[where] = _val(v)
             elif inspect.isfunction(v) or hasattr(v, "cache_info"):
                 if getattr(v, "__module__", mname) == mname:
@@ -203,7 +215,7 @@ def module_state(prefix="scico"):
                     if ck.startswith("__") and ck not in ("__init__", "__call__"):
                         continue
                     cw = f"{where}.{ck}"
-                    if isinstance(cv, (dict, list, set, bytearray)):
+                    if _is_data(cv):
                         out[cw] = _val(cv)
                     else:
                         fn = cv.__func__ if isinstance(cv, (staticmethod, classmethod)) else cv
